@@ -180,6 +180,46 @@ Theorem C12_direct_puts_map :
 Proof. exact @direct_puts_map. Qed.
 Print Assumptions C12_direct_puts_map.
 
+(* every replayed entry is handed exactly its own bytes of the data log, for ANY pattern of valid / cancelled entries, buffer size and batching *)
+Theorem C12_flush_data_correct :
+  forall (hint : Z) (l : BurstBuffer.logst),
+         log_ok l ->
+         BurstBuffer.flush_data hint l =
+         Some
+           (map (fun e : BurstBuffer.entry => (BurstBuffer.e_line e, BurstBuffer.entry_cells e))
+              (BurstBuffer.valid_entries (BurstBuffer.l_entries l))).
+Proof. exact @flush_data_correct. Qed.
+Print Assumptions C12_flush_data_correct.
+
+Theorem C12_read_batches_correct :
+  forall (A : Type) (cells : BurstBuffer.entry -> list A) (bs : list (list BurstBuffer.entry))
+           (dl pre R : list A),
+         dl = pre ++ flat_map cells (concat bs) ++ R ->
+         BurstBuffer.read_batches A cells true dl bs (length pre) =
+         map (fun b : list BurstBuffer.entry => map cells (BurstBuffer.valid_entries b)) bs.
+Proof. exact @read_batches_correct. Qed.
+Print Assumptions C12_read_batches_correct.
+
+(* reading at databuffer instead of databuffer + dataread (seeded change C12_flush_read_offset_after_cancel) hands the first entry a later entry's bytes *)
+Theorem C12_read_offset_zero_refuted :
+  BurstBuffer.read_batches Z BurstBuffer.entry_cells false
+           (flat_map BurstBuffer.entry_cells ex_log5) (ex_log5 :: nil) 0 <>
+         map
+           (fun b : list BurstBuffer.entry =>
+            map BurstBuffer.entry_cells (BurstBuffer.valid_entries b)) (ex_log5 :: nil) /\
+         hd nil
+           (hd nil
+              (BurstBuffer.read_batches Z BurstBuffer.entry_cells false
+                 (flat_map BurstBuffer.entry_cells ex_log5) (ex_log5 :: nil) 0)) =
+         BurstBuffer.entry_cells (ex_e5 true 3) /\
+         BurstBuffer.read_batches Z BurstBuffer.entry_cells true
+           (flat_map BurstBuffer.entry_cells ex_log5) (ex_log5 :: nil) 0 =
+         (BurstBuffer.entry_cells (ex_e5 true 1)
+          :: BurstBuffer.entry_cells (ex_e5 true 3) :: BurstBuffer.entry_cells (ex_e5 true 5) :: nil)
+         :: nil.
+Proof. exact @read_offset_zero_refuted. Qed.
+Print Assumptions C12_read_offset_zero_refuted.
+
 (* each logged request receives its own status (loop of the current tree); the loop before adb6eb2b does not *)
 Theorem C12_status_delivery :
   delivers BurstBuffer.deliver_c.
